@@ -27,6 +27,8 @@ def harness_bins(name, src, cfgs, tape=None, extra_flags=(), extra_objs=(), deps
             san = ["-fsanitize=address,undefined"]
         elif c.instr == "tsan":
             san = ["-fsanitize=thread"]
+        elif c.instr == "gcov":
+            san = ["--coverage"]
         out.append((c.name, link_bin(name, objs, dirs[c.name], extra=san + list(link_extra), libs=libs)))
     return out
 
@@ -84,6 +86,6 @@ def masked_bins(name, src, cfgs, extra_flags=(), extra_objs=()):
     out = []
     for c in cfgs:
         adp = adapter_obj("adp_masked.c", c, dirs[c.name])
-        san = ["-fsanitize=address,undefined"] if "asan" in c.instr else []
+        san = ["-fsanitize=address,undefined"] if "asan" in c.instr else ["--coverage"] if c.instr == "gcov" else []
         out.append((c.name, link_bin(name, [obj, tape, adp] + list(extra_objs), dirs[c.name], extra=san)))
     return out
